@@ -19,6 +19,7 @@ import (
 	"github.com/cosi-project/runtime/pkg/controller/conformance"
 	"github.com/cosi-project/runtime/pkg/resource/protobuf"
 	"verif.local/vrt"
+	"verif.local/vrt/vctx"
 )
 
 type vtMessage interface {
@@ -106,7 +107,11 @@ func New(srv v1alpha1.StateServer) *Client {
 
 var _ v1alpha1.StateClient = (*Client)(nil)
 
-func (c *Client) count(name string) { c.Calls[name]++ }
+// mu guards the bookkeeping below when the loopback runs free (passthrough mode, race-detector pass); it
+// is never held across a scheduling point.
+var mu sync.Mutex
+
+func (c *Client) count(name string) { mu.Lock(); c.Calls[name]++; mu.Unlock() }
 
 // Get implements StateClient.
 func (c *Client) Get(ctx context.Context, in *v1alpha1.GetRequest, _ ...grpc.CallOption) (*v1alpha1.GetResponse, error) {
@@ -261,7 +266,7 @@ func (c clientStream[T, PT]) RecvMsg(any) error            { panic("not used") }
 // List implements StateClient.
 func (c *Client) List(ctx context.Context, in *v1alpha1.ListRequest, _ ...grpc.CallOption) (grpc.ServerStreamingClient[v1alpha1.ListResponse], error) {
 	c.count("List")
-	sctx, cancel := context.WithCancel(ctx)
+	sctx, cancel := vctx.WithCancel(ctx)
 	s := &stream[v1alpha1.ListResponse, *v1alpha1.ListResponse]{ctx: sctx, cancel: cancel, ch: make(chan *v1alpha1.ListResponse, c.StreamBuf), done: make(chan struct{})}
 	req := roundTrip(in)
 	vrt.GoNamed("lb:list-handler", func() {
@@ -274,14 +279,16 @@ func (c *Client) List(ctx context.Context, in *v1alpha1.ListRequest, _ ...grpc.C
 // Watch implements StateClient.
 func (c *Client) Watch(ctx context.Context, in *v1alpha1.WatchRequest, _ ...grpc.CallOption) (grpc.ServerStreamingClient[v1alpha1.WatchResponse], error) {
 	c.count("Watch")
+	mu.Lock()
 	n := c.NWatch
 	c.NWatch++
+	mu.Unlock()
 	if c.Faults != nil {
 		if err := c.Faults.WatchCall(n); err != nil {
 			return nil, err
 		}
 	}
-	sctx, cancel := context.WithCancel(ctx)
+	sctx, cancel := vctx.WithCancel(ctx)
 	s := &stream[v1alpha1.WatchResponse, *v1alpha1.WatchResponse]{ctx: sctx, cancel: cancel, ch: make(chan *v1alpha1.WatchResponse, c.StreamBuf), done: make(chan struct{})}
 	if c.Faults != nil {
 		s.onRecv = func(idx int) error { return c.Faults.WatchRecv(n, idx) }
@@ -290,7 +297,9 @@ func (c *Client) Watch(ctx context.Context, in *v1alpha1.WatchRequest, _ ...grpc
 	req := roundTrip(in)
 	caller := vrt.CurID()
 	vrt.GoNamed("lb:watch-handler", func() {
+		mu.Lock()
 		c.Parent[vrt.CurID()] = caller
+		mu.Unlock()
 		s.err = toStatus(sctx, c.Srv.Watch(req, s))
 		vrt.Close(s.done)
 	})
